@@ -319,14 +319,16 @@ def gen_sub_schema(rng):
             kinds = ["subg", "subg", "subgf", "opt", "union", "int"]
             if i > 0:
                 kinds += ["nest", "nest", "nest"]
-            if rng.random() < 0.06:
+            if rng.random() < 0.015:
                 kinds = ["noninit"]
             kind = rng.choice(kinds)
             ls = sorted(leaves)
             if kind == "subg":
                 a, b = rng.sample(ls, 2)
+                if i > 0 and rng.random() < 0.3:
+                    a = f"M{rng.randrange(i)}"          # a container as a subgroup member
                 table = [[a.lower(), "cls", a], [b.lower(), "cls", b]]
-                if rng.random() < 0.4:
+                if a in leaves and rng.random() < 0.4:
                     table.append([a.lower() + "p", "partial", a])
                 dflt = rng.choice(["factory", "key"])
                 fields.append([fn, kind, {"table": table, "default": dflt}])
@@ -532,6 +534,19 @@ def gen_sub(rng, n_schema, per):
     return cases
 
 
+def _corpus():
+    import glob
+    import json
+    import os
+
+    d = os.path.join(os.path.dirname(os.path.dirname(os.path.dirname(os.path.abspath(__file__)))), "corpus", "C18")
+    out = []
+    for f in sorted(glob.glob(os.path.join(d, "*.json"))):
+        c = json.load(open(f))
+        out.append(c["case"] if "case" in c else c)
+    return out
+
+
 def gen(tier, seed):
     rng = random.Random(f"C18-{seed}")
     n_schema = 150 if tier == "quick" else 1800
@@ -572,7 +587,7 @@ def gen(tier, seed):
     for c in cases:
         c["kind"] = "rep"
     cases += gen_sub(rng, 60 if tier == "quick" else 700, 12)
-    return cases
+    return _corpus() + cases
 
 
 # --------------------------------------------------------------------------------------------------
@@ -649,6 +664,13 @@ def _oc(r):
     return r[:2]
 
 
+def _setup_failed(case, e):
+    err = ["raise", "HarnessSetup:" + type(e).__name__]
+    return dict(obs=err, msg=str(e)[:300], same_type=False, is_new=False, py_equal=False, input_unchanged=True,
+                changes_unchanged=True, before=case["obj"], gen_ok=True, unflat=(err if case.get("kind") != "sub" else []),
+                flat=None, ref=None, tables={"meta": [], "classes": []}, setup_failed=True)
+
+
 def run_impl(cases):
     import copy
 
@@ -659,7 +681,16 @@ def run_impl(cases):
     out = []
     for case in cases:
         if case.get("kind") == "sub":
-            out.append(run_sub(case))
+            try:
+                out.append(run_sub(case))
+            except Exception as e:  # noqa: BLE001  (class definitions / instance construction failed)
+                out.append(_setup_failed(case, e))
+            continue
+        try:
+            _namespace(case["src"])
+            build(case["obj"], _namespace(case["src"]))
+        except Exception as e:  # noqa: BLE001
+            out.append(_setup_failed(case, e))
             continue
         ns = _namespace(case["src"])
         obj = build(case["obj"], ns)
@@ -1007,6 +1038,8 @@ def _res_agree(a, b):
 
 
 def _violation(case, obs):
+    if obs.get("setup_failed"):
+        return "setup-failed", f"the generated classes / instance could not be built: {obs['obs'][1]}: {obs['msg']}"
     if case.get("kind") == "sub":
         return _sub_violation(case, obs)
     if not obs["gen_ok"]:
@@ -1058,6 +1091,8 @@ def nontrivial(case, obs):
 
 
 def features(case, obs):
+    if obs.get("setup_failed"):
+        return {"outcome": "setup-failed"}
     if case.get("kind") == "sub":
         sels = case["abs"] or []
         selected = [p for p, _c in sels]
